@@ -362,7 +362,7 @@ def _split_items(text):
     return items
 
 
-def items_between(block_sl, after_re, before_re, name=None):
+def items_between(block_sl, after_re, before_re, name=None, allow_loop_break=False):
     """The statements of a braced block that lie strictly between the unique item whose text matches after_re and the unique later
     item whose text matches before_re (items as split by _split_items: simple statements and `header { body }` compounds).  Anchoring
     on the NEIGHBOURS keeps the extraction alive when the statements in between are rewritten."""
@@ -376,7 +376,9 @@ def items_between(block_sl, after_re, before_re, name=None):
     if len(ia) != 1 or len(ib) != 1 or ib[0] <= ia[0]:
         raise Undecided("items_between(%s): expected one item matching %r followed by one matching %r, found %d/%d" % (block_sl.name, after_re, before_re, len(ia), len(ib)))
     frag = "".join(("\n" + txt(it) + "\n") if it[0] == 'pp' else txt(it) for it in items[ia[0] + 1:ib[0]])
-    if re.search(r'\b(return|goto|break|continue)\b', strip_comments(frag)):
+    # break/continue are harmless when every item of the fragment is itself a loop statement (they cannot leave the fragment)
+    only_loops = allow_loop_break and all(it[0] == 'compound' and re.match(r'\s*(for|while)\b', strip_comments(it[1]).strip()) for it in items[ia[0] + 1:ib[0]])
+    if re.search(r'\b(return|goto)\b' if only_loops else r'\b(return|goto|break|continue)\b', strip_comments(frag)):
         raise Undecided("items_between(%s): the fragment contains return/goto/break/continue" % block_sl.name)
     s = Slice(name or block_sl.name + ":between", block_sl.rel, frag, block_sl.line, kind="middle-fragment")
     s.n_items = ib[0] - ia[0] - 1
